@@ -23,6 +23,15 @@ pub fn limit_address_space(bytes: u64) {
     }
 }
 
+/// CPU time consumed by the calling thread, in seconds.
+pub fn thread_cpu_seconds() -> f64 {
+    let mut ts = libc::timespec { tv_sec: 0, tv_nsec: 0 };
+    unsafe {
+        libc::clock_gettime(libc::CLOCK_THREAD_CPUTIME_ID, &mut ts);
+    }
+    ts.tv_sec as f64 + ts.tv_nsec as f64 * 1e-9
+}
+
 pub mod geom {
     /// A point in f64. f32 inputs convert exactly.
     #[derive(Clone, Copy, Debug, PartialEq)]
